@@ -59,7 +59,12 @@ def _spawn(prop, tier, seed, shard, nshards, cases, budget, out, params):
     # (e.g. warnings with tracebacks from the code under observation) would block forever
     log = open(out + ".log", "wb")
     try:
-        return subprocess.Popen(cmd, cwd=str(ROOT), stdout=log, stderr=subprocess.STDOUT)
+        # TMPDIR: libraries loaded by the shard (onnxruntime writes a mat-debug-<pid>.log per process) leave
+        # their files in the shard's own scratch directory, which is removed with the run
+        env = dict(os.environ)
+        if env.get("VF_SHARD_TMP"):
+            env["TMPDIR"] = env["VF_SHARD_TMP"]
+        return subprocess.Popen(cmd, cwd=str(ROOT), stdout=log, stderr=subprocess.STDOUT, env=env)
     finally:
         log.close()
 
